@@ -165,7 +165,7 @@ pub fn check_binding(h: &History) -> CaseResult {
 
 /// constraints that no pair violates (limits 1e6) = no constraints, bit-equal
 pub fn check_nonbinding(h: &History) -> CaseResult {
-    let flags = Flags { c01: false, c03: false, c13: false, margins: true };
+    let flags = Flags { c01: false, c03: false, c13: false, margins: true, group_batches: false };
     let mut free = h.clone();
     free.cfg.constraints = None;
     let mut loose = h.clone();
